@@ -1088,3 +1088,297 @@ Lemma ex_seq :
 Proof. vm_compute. reflexivity. Qed.
 Close Scope string_scope.
 
+(** * 14. inputs that do not denote a value of the register's width
+
+    A register value travels as a byte string of ONE length: the bytes ValueBytes writes,
+    which is also what the parser table of ValueFromBytes reads ([width_ok]).  A byte string
+    of another length denotes no value of the register. *)
+
+Definition width_ok (i : rinfo) : bool := Nat.eqb (r_parser i) (r_ser i) && Nat.ltb 0 (r_parser i).
+
+Lemma registry_width_ok : forallb width_ok registry = true.
+Proof. vm_compute. reflexivity. Qed.
+
+Lemma lookup_width id i : lookup id registry = Some i ->
+  r_parser i = r_ser i /\ (0 < r_parser i)%nat /\ (id = key_id -> r_parser i = 32%nat).
+Proof.
+  intro H. destruct (lookup_ok _ _ H) as [_ [_ [_ Hkey]]].
+  apply lookup_In in H. destruct H as [Hin _].
+  pose proof registry_width_ok as Hok. rewrite forallb_forall in Hok. specialize (Hok i Hin).
+  unfold width_ok in Hok. apply andb_prop in Hok. destruct Hok as [H1 H2].
+  apply Nat.eqb_eq in H1. apply Nat.ltb_lt in H2.
+  repeat split; try assumption. intro E. rewrite H1. exact (proj1 (Hkey E)).
+Qed.
+
+Lemma le_value_bound b : Forall (fun x => x < 256) b -> le_value b < 256 ^ N.of_nat (List.length b).
+Proof.
+  induction 1 as [|x t Hx _ IH]; cbn [le_value List.length].
+  - cbn. lia.
+  - rewrite Nat2N.inj_succ, N.pow_succ_r'. lia.
+Qed.
+
+Lemma from_bytes_unknown id b : lookup id registry = None -> value_from_bytes id b = RErr.
+Proof. intro H. unfold value_from_bytes. rewrite H. reflexivity. Qed.
+
+(** too short by any number of bytes, down to none at all: refused *)
+Lemma from_bytes_short_refused id i b : lookup id registry = Some i ->
+  (List.length b < r_parser i)%nat -> value_from_bytes id b = RErr.
+Proof.
+  intros Hl Hlen. destruct (lookup_width _ _ Hl) as [_ [_ Hkey]].
+  unfold value_from_bytes. rewrite Hl.
+  destruct (String.eqb id key_id) eqn:E.
+  - apply String.eqb_eq in E. specialize (Hkey E).
+    destruct (Nat.eqb (List.length b) 32) eqn:E2; [|reflexivity].
+    apply Nat.eqb_eq in E2. lia.
+  - assert (Hlt : (List.length b <? r_parser i)%nat = true) by (apply Nat.ltb_lt; exact Hlen).
+    rewrite Hlt. reflexivity.
+Qed.
+
+Lemma from_bytes_empty_refused id : value_from_bytes id [] = RErr.
+Proof.
+  destruct (lookup id registry) as [i|] eqn:Hl; [|apply from_bytes_unknown; exact Hl].
+  apply (from_bytes_short_refused id i); [exact Hl|].
+  destruct (lookup_width _ _ Hl) as [_ [Hpos _]]. exact Hpos.
+Qed.
+
+(** exactly the register's width: the little-endian number (cut to the Go type) *)
+Lemma from_bytes_own_width id i b : lookup id registry = Some i ->
+  List.length b = r_parser i -> Forall (fun x => x < 256) b ->
+  value_from_bytes id b = ROk (id, le_value b mod 2 ^ r_bits i).
+Proof.
+  intros Hl Hlen Hb. destruct (lookup_width _ _ Hl) as [_ [_ Hkey]].
+  destruct (lookup_ok _ _ Hl) as [_ [_ [_ Hkey2]]].
+  unfold value_from_bytes. rewrite Hl.
+  destruct (String.eqb id key_id) eqn:E.
+  - apply String.eqb_eq in E. specialize (Hkey E). destruct (Hkey2 E) as [_ Hbits].
+    rewrite Hlen, Hkey, Nat.eqb_refl. rewrite N.mod_small; [reflexivity|].
+    rewrite Hbits, <- pow256_32, <- Hkey, <- Hlen. apply le_value_bound. exact Hb.
+  - assert (Hlt : (List.length b <? r_parser i)%nat = false) by (apply Nat.ltb_ge; lia).
+    rewrite Hlt. rewrite <- Hlen, firstn_all. reflexivity.
+Qed.
+
+(** a register whose Go type is as wide as its serialisation (all but ACM_STATUS): the number itself *)
+Lemma from_bytes_own_width_full id i b : lookup id registry = Some i ->
+  List.length b = r_parser i -> Forall (fun x => x < 256) b ->
+  r_bits i = 8 * N.of_nat (r_parser i) ->
+  value_from_bytes id b = ROk (id, le_value b).
+Proof.
+  intros Hl Hlen Hb Hfull. rewrite (from_bytes_own_width id i b Hl Hlen Hb).
+  rewrite N.mod_small; [reflexivity|].
+  rewrite Hfull, pow2_8, <- Hlen. apply le_value_bound. exact Hb.
+Qed.
+
+Definition full_width (i : rinfo) : bool := N.eqb (r_bits i) (8 * N.of_nat (r_parser i)).
+Lemma full_width_count : List.length (filter full_width registry) = 25%nat.
+Proof. vm_compute. reflexivity. Qed.
+
+(** the faithful characterisation: which inputs yield a value, and which value *)
+Lemma from_bytes_characterised id b r : Forall (fun x => x < 256) b ->
+  (value_from_bytes id b = ROk r <->
+   exists i, lookup id registry = Some i /\
+     (if String.eqb id key_id then List.length b = 32%nat else (r_parser i <= List.length b)%nat) /\
+     r = (id, le_value (firstn (r_parser i) b) mod 2 ^ r_bits i)).
+Proof.
+  intro Hb. split.
+  - unfold value_from_bytes. destruct (lookup id registry) as [i|] eqn:Hl; [|discriminate].
+    destruct (lookup_width _ _ Hl) as [_ [_ Hkey]].
+    destruct (lookup_ok _ _ Hl) as [_ [_ [_ Hkey2]]].
+    destruct (String.eqb id key_id) eqn:E.
+    + apply String.eqb_eq in E. specialize (Hkey E). destruct (Hkey2 E) as [_ Hbits].
+      destruct (Nat.eqb (List.length b) 32) eqn:E2; [|discriminate].
+      apply Nat.eqb_eq in E2. intro H. injection H as <-.
+      exists i. split; [reflexivity|]. split; [exact E2|].
+      rewrite Hkey, <- E2, firstn_all. rewrite N.mod_small; [reflexivity|].
+      rewrite Hbits, <- pow256_32, <- E2. apply le_value_bound. exact Hb.
+    + destruct (Nat.ltb (List.length b) (r_parser i)) eqn:E2; [discriminate|].
+      apply Nat.ltb_ge in E2. intro H. injection H as <-.
+      exists i. split; [reflexivity|]. split; [exact E2|reflexivity].
+  - intros [i [Hl [Hlen ->]]]. destruct (lookup_width _ _ Hl) as [_ [_ Hkey]].
+    destruct (String.eqb id key_id) eqn:E.
+    + apply String.eqb_eq in E. specialize (Hkey E).
+      rewrite (from_bytes_own_width id i b Hl) by (try exact Hb; lia).
+      rewrite Hkey, <- Hlen, firstn_all. reflexivity.
+    + unfold value_from_bytes. rewrite Hl, E.
+      assert (Hlt : (List.length b <? r_parser i)%nat = false) by (apply Nat.ltb_ge; exact Hlen).
+      rewrite Hlt. reflexivity.
+Qed.
+
+(** [_partial]: "a value iff the length is the register's width, and then the little-endian
+    number" holds among the inputs that are not LONGER than the width (hypothesis 3) *)
+Lemma from_bytes_value_iff_width_partial id i b r : lookup id registry = Some i ->
+  Forall (fun x => x < 256) b -> (List.length b <= r_parser i)%nat ->
+  (value_from_bytes id b = ROk r <->
+   List.length b = r_parser i /\ r = (id, le_value b mod 2 ^ r_bits i)).
+Proof.
+  intros Hl Hb Hle. split.
+  - intro H. destruct (Nat.eq_dec (List.length b) (r_parser i)) as [E|E].
+    + split; [exact E|]. rewrite (from_bytes_own_width id i b Hl E Hb) in H. congruence.
+    + rewrite (from_bytes_short_refused id i b Hl) in H by lia. discriminate.
+  - intros [E ->]. apply from_bytes_own_width; assumption.
+Qed.
+
+(** the key: no extra hypothesis, its length is compared exactly *)
+Lemma from_bytes_key_iff b r : Forall (fun x => x < 256) b ->
+  (value_from_bytes key_id b = ROk r <-> List.length b = 32%nat /\ r = (key_id, le_value b)).
+Proof.
+  intro Hb. unfold value_from_bytes.
+  change (lookup key_id registry) with (Some {| r_id := key_id; r_bits := 256; r_ser := 32; r_parser := 32; r_addr := 4275241984 |}).
+  rewrite String.eqb_refl.
+  destruct (Nat.eqb (List.length b) 32) eqn:E.
+  - apply Nat.eqb_eq in E. split.
+    + intro H. injection H as <-. split; [exact E|reflexivity].
+    + intros [_ ->]. reflexivity.
+  - apply Nat.eqb_neq in E. split; [discriminate|]. intros [E2 _]. contradiction.
+Qed.
+
+(** every other register: bytes after the register's width are ignored (finding
+    C16-from-bytes-trailing-bytes-accepted) *)
+Lemma from_bytes_trailing_ignored id i b : lookup id registry = Some i -> id <> key_id ->
+  (r_parser i <= List.length b)%nat ->
+  value_from_bytes id b = value_from_bytes id (firstn (r_parser i) b).
+Proof.
+  intros Hl Hk Hlen. unfold value_from_bytes. rewrite Hl.
+  apply String.eqb_neq in Hk. rewrite Hk.
+  rewrite firstn_length_le by exact Hlen.
+  assert (H1 : (List.length b <? r_parser i)%nat = false) by (apply Nat.ltb_ge; exact Hlen).
+  rewrite H1, Nat.ltb_irrefl. rewrite firstn_firstn, Nat.min_id. reflexivity.
+Qed.
+
+Open Scope string_scope.
+Lemma from_bytes_value_iff_width_refuted :
+  exists id i b r, lookup id registry = Some i /\ Forall (fun x => x < 256) b /\
+    List.length b <> r_parser i /\ value_from_bytes id b = ROk r.
+Proof.
+  exists "TXT.ESTS", {| r_id := "TXT.ESTS"; r_bits := 8; r_ser := 1; r_parser := 1; r_addr := 4275240968 |},
+         [1; 255], ("TXT.ESTS", 1).
+  split; [reflexivity|]. split; [repeat constructor|]. split; [discriminate|reflexivity].
+Qed.
+Close Scope string_scope.
+
+(** * 15. a damaged entry makes the whole document fail *)
+
+Lemma mapM_err {A B} (f : A -> res B) l : (forall a, f a <> RPanic) ->
+  Exists (fun a => f a = RErr) l -> mapM f l = RErr.
+Proof.
+  intros Hnp. induction 1 as [a t Ha|a t _ IH]; cbn [mapM].
+  - rewrite Ha. reflexivity.
+  - specialize (Hnp a). destruct (f a); cbn [bind]; try congruence.
+    rewrite IH. reflexivity.
+Qed.
+
+Definition json_entry (e : string * list N) : res reg :=
+  bind (value_from_bytes (fst e) (snd e)) (fun r => new (fst e) (VReg r)).
+
+Lemma json_entry_never_panics e : json_entry e <> RPanic.
+Proof.
+  unfold json_entry. pose proof (from_bytes_never_panics (fst e) (snd e)).
+  destruct (value_from_bytes (fst e) (snd e)); cbn [bind]; try congruence.
+  apply new_never_panics.
+Qed.
+
+Lemma json_doc_bad_entry_refused es :
+  Exists (fun e => value_from_bytes (fst e) (snd e) = RErr) es -> json_doc es = RErr.
+Proof.
+  intro H. unfold json_doc. apply (mapM_err json_entry); [exact json_entry_never_panics|].
+  apply Exists_exists in H. destruct H as [e [Hin He]]. apply Exists_exists. exists e.
+  split; [exact Hin|]. unfold json_entry. rewrite He. reflexivity.
+Qed.
+
+(** a legacy JSON document holding, anywhere, an entry whose value is shorter than the
+    register's width (no bytes at all: "value":"", null, no value field) is refused, and the
+    variable it was unmarshalled into keeps what it held *)
+Lemma json_doc_short_entry_refused dst es id i b : In (id, b) es ->
+  lookup id registry = Some i -> (List.length b < r_parser i)%nat ->
+  json_doc es = RErr /\ unmarshal dst (DJson es) = Some (dst, false).
+Proof.
+  intros Hin Hl Hlen. assert (H : json_doc es = RErr).
+  { apply json_doc_bad_entry_refused. apply Exists_exists. exists (id, b). split; [exact Hin|].
+    cbn [fst snd]. eapply from_bytes_short_refused; eassumption. }
+  split; [exact H|]. apply unmarshal_error_keeps. cbn [parse_doc]. rewrite H. reflexivity.
+Qed.
+
+(** YAML *)
+Lemma value_unpack_never_panics id v : value_unpack id v <> RPanic.
+Proof.
+  destruct v as [n|s|]; cbn [value_unpack]; try discriminate.
+  unfold value_unpack_string. destruct (drop_prefix "0x" s) as [h|].
+  - unfold value_from_hex. destruct (lookup id registry); [|discriminate].
+    destruct (String.eqb id key_id).
+    + destruct (hex_to_bytes h); discriminate.
+    + destruct (parse_hex _ h); discriminate.
+  - destruct (drop_prefix "base64:" s) as [t|]; [|discriminate].
+    unfold value_from_base64. destruct (b64_dec t) as [b|]; [|discriminate].
+    pose proof (from_bytes_never_panics id b).
+    destruct (value_from_bytes id b); cbn [bind]; congruence.
+Qed.
+
+Lemma yaml_entry_never_panics id v : yaml_entry id v <> RPanic.
+Proof.
+  unfold yaml_entry. pose proof (value_unpack_never_panics id v).
+  destruct (value_unpack id v); cbn [bind]; try congruence. apply new_never_panics.
+Qed.
+
+Lemma yaml_doc_bad_entry_refused es :
+  Exists (fun e => yaml_entry (fst e) (snd e) = RErr) es -> yaml_doc es = RErr.
+Proof.
+  intro H. unfold yaml_doc. destruct (has_dup (map fst es)); [reflexivity|].
+  rewrite (mapM_err (fun e => yaml_entry (fst e) (snd e))); [reflexivity| |exact H].
+  intro a. apply yaml_entry_never_panics.
+Qed.
+
+(** the obsolete "base64:" value: text that is no base64, or base64 of fewer bytes than the
+    register's width (none at all: "base64:") is refused *)
+Lemma b64_entry_short_refused id t :
+  (b64_dec t = None \/
+   exists b i, b64_dec t = Some b /\ lookup id registry = Some i /\ (List.length b < r_parser i)%nat) ->
+  yaml_entry id (YStr (pfx_b64 ++ t)) = RErr.
+Proof.
+  intro H. unfold yaml_entry. cbn [value_unpack]. unfold value_unpack_string.
+  rewrite drop_hex_b64, drop_b64_b64. unfold value_from_base64.
+  destruct H as [H|[b [i [H [Hl Hlen]]]]]; rewrite H; [reflexivity|].
+  rewrite (from_bytes_short_refused id i b Hl Hlen). reflexivity.
+Qed.
+
+Lemma b64_entry_empty_refused id : yaml_entry id (YStr pfx_b64) = RErr.
+Proof.
+  unfold yaml_entry. cbn [value_unpack]. unfold value_unpack_string.
+  change (drop_prefix "0x" pfx_b64) with (@None string).
+  change (drop_prefix "base64:" pfx_b64) with (Some EmptyString).
+  unfold value_from_base64. cbn [b64_dec]. rewrite from_bytes_empty_refused. reflexivity.
+Qed.
+
+(** the hexadecimal value without a single digit, "0x" *)
+Lemma hex_entry_empty_refused id : yaml_entry id (YStr pfx_hex) = RErr.
+Proof.
+  unfold yaml_entry. cbn [value_unpack]. unfold value_unpack_string.
+  change (drop_prefix "0x" pfx_hex) with (Some EmptyString).
+  unfold value_from_hex. destruct (lookup id registry) as [i|] eqn:Hl; [|reflexivity].
+  destruct (String.eqb id key_id) eqn:E.
+  - cbn [hex_to_bytes bind]. unfold new. rewrite Hl, E. reflexivity.
+  - reflexivity.
+Qed.
+
+(** the key written in hexadecimal: any number of bytes other than 32 is refused *)
+Lemma hex_key_wrong_length_refused h b : hex_to_bytes h = Some b -> List.length b <> 32%nat ->
+  yaml_entry key_id (YStr (pfx_hex ++ h)) = RErr.
+Proof.
+  intros Hh Hlen. unfold yaml_entry. cbn [value_unpack]. unfold value_unpack_string.
+  rewrite drop_hex_hex. unfold value_from_hex.
+  change (lookup key_id registry) with (Some {| r_id := key_id; r_bits := 256; r_ser := 32; r_parser := 32; r_addr := 4275241984 |}).
+  rewrite String.eqb_refl, Hh. cbn [bind]. unfold new.
+  change (lookup key_id registry) with (Some {| r_id := key_id; r_bits := 256; r_ser := 32; r_parser := 32; r_addr := 4275241984 |}).
+  rewrite String.eqb_refl. apply Nat.eqb_neq in Hlen. rewrite Hlen. reflexivity.
+Qed.
+
+Open Scope string_scope.
+Lemma ex_widths :
+  value_from_bytes "TXT.ERRORCODE" [] = RErr /\
+  value_from_bytes "TXT.ERRORCODE" [1; 0; 0] = RErr /\
+  value_from_bytes "TXT.ERRORCODE" [1; 0; 0; 0xc0] = ROk ("TXT.ERRORCODE", 0xc0000001) /\
+  value_from_bytes "TXT.ERRORCODE" [1; 0; 0; 0xc0; 7] = ROk ("TXT.ERRORCODE", 0xc0000001) /\
+  value_from_bytes key_id (repeat 1 31) = RErr /\ value_from_bytes key_id (repeat 1 33) = RErr /\
+  json_doc [("ACM_POLICY_STATUS", [0x42; 0; 0; 0; 0; 0; 0; 0]); ("TXT.ERRORCODE", [])] = RErr /\
+  yaml_entry "TXT.ESTS" (YStr "base64:") = RErr /\ yaml_entry "TXT.ESTS" (YStr "0x") = RErr /\
+  yaml_entry "ACM_STATUS" (YStr "base64:EHCFTw==") = RErr.
+Proof. vm_compute. repeat split. Qed.
+Close Scope string_scope.
